@@ -20,9 +20,9 @@ def flt(x):
 
 INTS = [0, 1, -1, 2, 3, 5, 10, 100, -7, MAXI, -MAXI, 2**53, 42]
 FLOATS = [0.0, 0.5, 1.0, 1.5, 2.0, -1.0, 0.1, 0.1 + 2**-56, 1e-20, 2e-20, 1e300, 100.0, 2.5, 3.0, 10.0]
-STRS = ["", "a", "ab", "b", "abc", "A", "é", "\U0001F600", "￿", "a b", "0", "ac", "cb", "ba", "x"]
+STRS = ["", "a", "ab", "b", "abc", "A", "é", "\U0001F600", "￿", "a b", "0", "ac", "cb", "ba", "x", "a\x7fb", "\x80", "\x9f\xa0"]
 PLAIN_NAMES = ["a", "b", "c", "d", "key", "k1", "_x", "é", "\U0001F600", "ab"]
-ODD_NAMES = ["0", "1", " ", "a b", "a.b", "*", "$", "@", "-1", "01", "a,b", "[0]", ""]   # need bracket notation, still plain
+ODD_NAMES = ["0", "1", " ", "a b", "a.b", "*", "$", "@", "-1", "01", "a,b", "[0]", "", "a\x7f", "\x85x", "k\xa0", "\u2028"]   # need bracket notation, still plain
 HOSTILE_NAMES = ["a'b", "a\\b", "a/b", "a~b", "~0", "~1", "'a'", '"a"', "a\tb", "a\nb", "'", '"', "\\", "\u0001", "a\"b", "\\n", "\\t"]
 
 
@@ -71,7 +71,7 @@ class Gen:
         if k == 1:
             return ("b", r.randrange(2))
         if k <= 4:
-            pool = INTS if self.p.big_ints else [i for i in INTS if abs(i) < 2**53]
+            pool = (INTS + [2**63 - 1, 2**63, 2**64 - 1, -2**63, 2**53 + 1]) if self.p.big_ints else [i for i in INTS if abs(i) < 2**53]
             return ("i", r.choice(pool))
         if k <= 6 and self.p.floats:
             return flt(r.choice(FLOATS))
